@@ -15,6 +15,8 @@ abbrev Resp := Nat × String × String   -- status, headers token, body token
 
 structure St where
   session : Bool := false
+  log : Bool := false                      -- traffic logger at DEBUG
+  nonUtf8 : List Resp := []                -- responses whose body bytes are not valid UTF-8
   url : Option Url := none
   own : Headers := []
   caller : Headers := []
@@ -52,7 +54,11 @@ def step (st : St) (toks : List String) : St :=
                               port := if port = "-" then none else some port.toList, path := str path } }
   | ["own", h] => { st with own := parseHeaders h }
   | ["caller", h] => { st with caller := parseHeaders h }
+  | ["log", l] => { st with log := l == "T" }
   | ["out", "ok", s, h, b] => { st with outs := st.outs.push (.ok (s.toNat!, h, b)) }
+  | ["out", "ok", s, h, b, u] =>
+      { st with outs := st.outs.push (.ok (s.toNat!, h, b)),
+                nonUtf8 := if u == "T" then st.nonUtf8 else (s.toNat!, h, b) :: st.nonUtf8 }
   | ["out", "exc", c, s] =>
       match clsId c with
       | some i => { st with outs := st.outs.push (.exc i (optNat s)) }
@@ -76,7 +82,7 @@ def finish (st : St) : Bool × Bool × List String :=
   match st.url, st.res with
   | some u, some (ires, icls) =>
     let outs := st.outs.toList
-    let m := request tables st.session outs
+    let m := requestL tables st.session st.log (fun r => !st.nonUtf8.contains r) outs
     let mobs := observe tables m
     let mcls := match m.1 with | .raised c _ => classNames.getD c s!"<class {c}>" | _ => ""
     let hdrs := requestHeaders u st.own st.caller
